@@ -117,6 +117,11 @@ def classify(tr, line, clause):
         return "F20:ede-extra-text-trailing-nul:%s" % clause
     if ty == "OPT" and op == "dec" and clause == "FixedPoint" and e.get("res") == "ok" and _ede_text_nuls(e.get("b", []), 2):
         return "F20:ede-extra-text-trailing-nul:%s" % clause
+    # F46 (fixed in /repo b78564a): the first lookup of an IN-only type in the process was in class ANY (255);
+    # the generic fallback was cached under (ANY, type), the class-independent registry key, so the type's
+    # home class was served by GenericRdata afterwards
+    if op == "enc" and clause == "ImplementationUsed" and tr.get("tid", "").startswith("fresh:any-first:"):
+        return "F46:class-any-first-lookup-caches-generic-under-class-independent-key:%s" % ty
     # F23: a name whose pointer leads to labels overlapping the pointer: the name parser resumes at the
     # furthest octet read instead of after the pointer, so left-over RDATA octets are accepted
     if op == "dec" and clause in ("NoTrailingOctets", "MustReject", "MustAccept", "ReencodeSpec") and e.get("res") == "ok" \
@@ -279,13 +284,14 @@ def run(ctx):
     # process is in a class without implementation (HS), then its home class - and the reverse as control
     fitems = [{"ty": ty, "vs": vs, "wire": stats["base_wires"][ty][0]} for ty, vs in sorted(fresh_vs.items())
               if stats["base_wires"].get(ty)]
-    with cf.ThreadPoolExecutor(max_workers=2) as ex:
-        fres = list(ex.map(lambda o: c02_rdata.run_fresh(o, fitems), ("foreign-first", "home-first")))
-    ftraces = fres[0] + fres[1]
+    orders = sorted(c02_rdata.FOREIGN_ORDERS)
+    with cf.ThreadPoolExecutor(max_workers=4) as ex:
+        fres = list(ex.map(lambda o: c02_rdata.run_fresh(o, fitems), orders))
+    ftraces = [tr for r in fres for tr in r]
     fmap = {tr["tid"]: {"tid": tr["tid"], "ty": tr["ty"], "k": "fresh", "order": tr["tid"].split(":")[1],
                         "item": next(x for x in fitems if x["ty"] == tr["ty"])} for tr in ftraces}
     ctx.extra["fresh_process_order_scenarios"] = len(ftraces)
-    ctx.log("driver: %d fresh-process lookup-order traces (2 new interpreters)" % len(ftraces))
+    ctx.log("driver: %d fresh-process lookup-order traces (%d new interpreters)" % (len(ftraces), len(orders)))
     account(ctx, ftraces, stats)
     if quick:
         held, heldmap = held + ftraces, dict(heldmap, **fmap)
